@@ -3,3 +3,4 @@ import Reduino.Driver.Core
 import Reduino.Driver.Tool
 import Reduino.Driver.Fw
 import Reduino.Driver.Lcd
+import Reduino.Driver.Heap
